@@ -99,19 +99,13 @@ Proof.
     + crunch; solve_effect.
     + crunch; solve_effect.
     + destruct pc; simpl in H; crunch; solve_effect.
-  - (* add_label *)
-    destruct pc as [|[|[|[|pc]]]]; simpl in H.
-    + destruct (node_live s n); crunch; solve_effect.
-    + crunch; solve_effect.
-    + destruct (aget n (g_nlabels s)) as [ls|]; [destruct (zmem lb ls)|]; crunch; solve_effect.
-    + crunch; solve_effect.
+  - (* add_label: one step *)
+    destruct pc as [|pc]; simpl in H.
+    + destruct (node_live s n); [destruct (aget n (g_nlabels s)) as [ls|]; [destruct (zmem lb ls)|]|]; crunch; solve_effect.
     + destruct pc; simpl in H; crunch; solve_effect.
-  - (* remove_label *)
-    destruct pc as [|[|[|[|pc]]]]; simpl in H.
-    + destruct (node_live s n); crunch; solve_effect.
-    + destruct (zmem lb (g_catalog s)); crunch; solve_effect.
-    + destruct (aget n (g_nlabels s)) as [ls|]; [destruct (zmem lb ls)|]; crunch; solve_effect.
-    + crunch; solve_effect.
+  - (* remove_label: one step *)
+    destruct pc as [|pc]; simpl in H.
+    + destruct (node_live s n && zmem lb (g_catalog s)); [destruct (aget n (g_nlabels s)) as [ls|]; [destruct (zmem lb ls)|]|]; crunch; solve_effect.
     + destruct pc; simpl in H; crunch; solve_effect.
   - (* create_edge *)
     destruct pc as [|[|[|[|[|pc]]]]]; simpl in H.
